@@ -19,7 +19,7 @@ import (
 )
 
 type Adv struct {
-	// Kind: badhdr | lightfork | cfliar-omit | cfliar-inconsistent |
+	// Kind: badhdr | lightfork | cfliar-omit | cfliar-empty | cfliar-inconsistent |
 	// cfliar-unserved | garbage | silent | stall | flap
 	Kind   string `json:"kind"`
 	Period int    `json:"period"` // seconds between misbehaviours
@@ -50,7 +50,7 @@ type Case struct {
 	NoNet []bool `json:"no_net,omitempty"`
 }
 
-var advKinds = []string{"badhdr", "lightfork", "cfliar-omit", "cfliar-inconsistent", "cfliar-unserved", "garbage", "silent", "stall", "flap"}
+var advKinds = []string{"badhdr", "lightfork", "cfliar-omit", "cfliar-empty", "cfliar-inconsistent", "cfliar-unserved", "garbage", "silent", "stall", "flap"}
 
 func genCase(t *rapid.T) Case {
 	p := kit.GenParams(t)
@@ -148,7 +148,7 @@ func runCase(t *testing.T, c Case) kit.Verdict {
 			}
 			a := c.Advs[i-c.Honest]
 			switch a.Kind {
-			case "cfliar-omit", "cfliar-inconsistent", "cfliar-unserved":
+			case "cfliar-omit", "cfliar-empty", "cfliar-inconsistent", "cfliar-unserved":
 				p.LieCFKind = a.Kind[len("cfliar-"):]
 				p.LieCFFrom = int32(max(1, c.World.Base-a.Param))
 			case "silent":
